@@ -172,5 +172,28 @@ Section BufConsumer.
         | (c3, r) => let '(c4, rs) := bcdrain fuel c3 in (c4, r :: rs, length d)
         end
     end.
+
+  (* a chunk of transport data is consumed by as many recv_into rounds as needed (each takes what fits the view) *)
+  Fixpoint bcchunk (rounds fuel : nat) (c : bcstate) (data : bytes) : bcstate * list (nres P) :=
+    match rounds with
+    | 0 => (c, [])
+    | S k =>
+        match data with
+        | [] => (c, [])
+        | _ =>
+            let '(c', rs, n) := bcstep fuel c data in
+            let '(c'', rs') := bcchunk k fuel c' (skipn n data) in
+            (c'', rs ++ rs')
+        end
+    end.
+
+  Fixpoint bcdeliver (fuel : nat) (c : bcstate) (chunks : list bytes) : bcstate * list (nres P) :=
+    match chunks with
+    | [] => (c, [])
+    | ch :: chs =>
+        let '(c', rs) := bcchunk (S (length ch)) fuel c ch in
+        let '(c'', rs') := bcdeliver fuel c' chs in
+        (c'', rs ++ rs')
+    end.
 End BufConsumer.
 Arguments bmem {P F}. Arguments bstart {P F}. Arguments balready {P F}. Arguments bexported {P F}. Arguments bcons {P F}.
